@@ -74,22 +74,37 @@ def kind(r: Dict[str, Any]) -> str:
     return "%s:%d" % (r["t"], len(r["items"]))
 
 
+def pycanon(r: Dict[str, Any]) -> str:
+    """Python mirror of DdsValues.Canon -- used only to *describe* a collision (which sub-terms
+    really differ); the verdict always comes from the classes TLC computed."""
+    t = r["t"]
+    if t == "atom":
+        return json.dumps(ATOM[r["id"]]["c"])
+    if t in ("list", "tuple", "ntuple"):
+        return json.dumps(["seq", [pycanon(x) for x in r["items"]]])
+    if t == "dict":
+        return json.dumps(["map", sorted([pycanon(k), pycanon(v)] for (k, v) in r["items"])])
+    return json.dumps(["record", r["cls"], [[k, pycanon(v)] for (k, v) in r["items"]]])
+
+
 def diff_pair(a: Dict[str, Any], b: Dict[str, Any]) -> Tuple[Dict[str, Any], Dict[str, Any]]:
-    """Descend through equal-shaped containers to the first differing sub-terms."""
+    """Descend through equal-shaped containers to the first sub-terms that differ in identity
+    (sub-terms that only differ by a documented identification are skipped)."""
+    same = lambda x, y: pycanon(x) == pycanon(y)
     seqs = ("list", "tuple", "ntuple")
     if a["t"] in seqs and b["t"] in seqs and len(a["items"]) == len(b["items"]) and a["items"]:
         for (x, y) in zip(a["items"], b["items"]):
-            if x != y:
+            if not same(x, y):
                 return diff_pair(x, y)
     if a["t"] == b["t"] == "dict" and len(a["items"]) == len(b["items"]) and a["items"]:
         for ((k1, v1), (k2, v2)) in zip(a["items"], b["items"]):
-            if k1 != k2:
+            if not same(k1, k2):
                 return diff_pair(k1, k2)
-            if v1 != v2:
+            if not same(v1, v2):
                 return diff_pair(v1, v2)
     if a["t"] == b["t"] == "dc" and a["cls"] == b["cls"]:
         for ((k1, v1), (k2, v2)) in zip(a["items"], b["items"]):
-            if v1 != v2:
+            if not same(v1, v2):
                 return diff_pair(v1, v2)
     return (a, b)
 
@@ -110,6 +125,11 @@ def collision_class(a: Dict[str, Any], b: Dict[str, Any]) -> str:
         return "container~string-spelling-its-element-hashes"
     if {kx.split(":")[0], ky.split(":")[0]} == {"dict", "dataclass"}:
         return "dataclass~dict-spelling-its-field-hashes"
+    seqs = ("list", "tuple", "ntuple")
+    for (d_, l_) in ((x, y), (y, x)):
+        if d_["t"] == "dict" and l_["t"] in seqs and len(d_["items"]) == len(l_["items"]) and d_["items"] and all(
+                i["t"] in seqs and len(i["items"]) == 2 for i in l_["items"]):
+            return "dict~sequence-of-its-key-value-pairs"
     return "%s~%s" % (kx, ky)
 
 
@@ -423,10 +443,24 @@ def _c13_task(a) -> Dict[str, Any]:
         sys.path.insert(0, root)
     importlib.invalidate_caches()
     dds.accept_module("vspell")
-    if redef and ("vspell." + modname) in sys.modules:
+    if redef:
+        # the same module and function names defined again in one process, the way a notebook cell is
+        # re-run: the source is compiled under a fresh pseudo file name registered with linecache and
+        # executed in the (single) module object -- no import-system caching involved
         import linecache
-        linecache.checkcache()
-        mod = importlib.reload(sys.modules["vspell." + modname])
+        import types
+        full = "vspell." + modname
+        mod = sys.modules.get(full)
+        if mod is None:
+            importlib.import_module("vspell")
+            mod = types.ModuleType(full)
+            sys.modules[full] = mod
+            setattr(sys.modules["vspell"], modname, mod)
+        for k in [k for k in mod.__dict__ if k.startswith("h_") or k == "g"]:
+            del mod.__dict__[k]
+        fname = "<vspell.redef cell %d>" % idx
+        linecache.cache[fname] = (len(src), None, src.splitlines(True), fname)
+        exec(compile(src, fname, "exec"), mod.__dict__)
     else:
         mod = importlib.import_module("vspell." + modname)
     ops: List[Any] = []
